@@ -26,10 +26,11 @@ impl EventGen for ReuseElement {
         // recursive reuse such as `<reuse href="#self" a="$a$a"/>` doubles the
         // value at every level until memory is exhausted.
         for (key, value) in &reuse_element.attrs {
-            if value.len() > context.config.var_limit as usize {
+            // (the limit is a number of characters, not of bytes)
+            if value.chars().count() > context.config.var_limit as usize {
                 return Err(SvgdxError::VarLimitError(
                     key.clone(),
-                    value.len(),
+                    value.chars().count(),
                     context.config.var_limit,
                 ));
             }
